@@ -21,6 +21,16 @@ rc=0
 pkgs=$(grep '^+++ b/' "$diff" | sed 's|^+++ b/||' | xargs -n1 dirname | sort -u | sed 's|^\.$|go-structform|' | paste -sd'|')
 for p in $props; do
   out=""
+  if [ "$p" = "C20" ]; then
+    # C20 is decided by the bounded stand-in (which also runs the govc obligations tagged C20)
+    out=$(VERIF_REPO="$scratch/repo" VERIF_REPLAY_DIR="$scratch/replays" python3 "$root/tools/c20_bounded.py" quick 2>&1)
+    if echo "$out" | grep -q '^VIOLATION'; then
+      echo "KILLED   $p $(basename "$diff"): $(echo "$out" | grep -c '^VIOLATION') violation(s), first: \"$(echo "$out" | grep '^VIOLATION' | head -1 | sed 's/.*obligation=//' | tr -d '"' | cut -c1-200)\""
+    else
+      echo "SURVIVED $p $(basename "$diff")"; rc=1
+    fi
+    continue
+  fi
   if [ -n "${MUTCHECK_FAST:-}" ] && [ -n "$pkgs" ]; then
     out=$(VERIF_REPO="$scratch/repo" VERIF_REPLAY_DIR="$scratch/replays" "$root/bin/govc" check -prop "$p" -no-evidence -fn "($pkgs)::" 2>&1)
     echo "$out" | grep -q '^VIOLATION' || out=""
